@@ -11,7 +11,7 @@ func coordModelsOn() bool {
 		id = os.Getenv("GOVC_PROP")
 	}
 	switch id {
-	case "C12", "C13", "C14", "C15", "C43":
+	case "C12", "C13", "C14", "C15", "C16", "C43":
 		return true
 	}
 	return false
